@@ -9,6 +9,7 @@
 (*   ExpansionChecks  the checker accepts                                                       *)
 (*   SameConclusion   the accepted sequent has the conclusion that eval reports                  *)
 (*   NoExtraHyps      its hypotheses are among those that eval reports                           *)
+(*   NoNewGaps        the accepted proof has no unproved step besides the stated premises (gaps = the checker's report)  *)
 (*   ExportContiguous / ExportCitations / ExportProvesEval   the exported expansion (ProofTerm.export) is numbered contiguously  *)
 (*                    below the step's id, cites only premises or earlier visible lines, and its last line states what eval reports *)
 EXTENDS Naturals, Sequences, FiniteSets, TLC, TraceLib
@@ -37,6 +38,7 @@ ClausesOf(e) ==
   ELSE IF e.exp_lines # <<>> /\ e.exp_last # <<e.eval[2], e.eval[3]>> /\ ~(e.exp_last[2] = e.eval[3] /\ SetOf(e.exp_last[1]) \subseteq SetOf(e.eval[2])) THEN {"ExportProvesEval"}
   ELSE IF ~e.check[1] THEN {"ExpansionChecks"}
   ELSE (IF e.check[3] = e.eval[3] THEN {} ELSE {"SameConclusion"})
+       \cup (IF e.gaps <= e.nprems THEN {} ELSE {"NoNewGaps"})
        \cup (IF SetOf(e.check[2]) \subseteq SetOf(e.eval[2]) THEN {} ELSE {"NoExtraHyps"})
 \* informational: eval accepts an input for which no expansion can be produced, or the converse
 DivergesOf(e) == e.kind = "macro" /\ (e.eval[1] # e.expand[1])
